@@ -357,8 +357,13 @@ func c06Reference(b *mon.B, r *gen.R, caseNo *int) {
 		rc := newRefConn(ref, k%60000+1, key)
 		sid := r.U32()
 		flagsExtra := r.Pick(0, 0, 4, 0x10, 0xf4)
+		// sessions need not start at 1: any odd number opens one (and every reply is numbered request+1)
+		first := r.Pick(1, 1, 3, 5, 77, 249)
 		for i, p := range rcp.Pkts {
-			h := rfc8907.Header{Major: 0xc, Minor: p.Minor, Type: p.Type, Seq: 1 + 2*i, Flags: p.Flags | flagsExtra, Session: sid}
+			h := rfc8907.Header{Major: 0xc, Minor: p.Minor, Type: p.Type, Seq: first + 2*i, Flags: p.Flags | flagsExtra, Session: sid}
+			if h.Seq > 253 {
+				break
+			}
 			if rcp.Name != "ascii" && rcp.Name != "pap-minor1" && r.Chance(1, 3) {
 				h.Minor = 1 - h.Minor // supported and unsupported minor versions alike are mirrored
 			}
